@@ -194,6 +194,30 @@ def run_batch(a):
     return out
 
 
+def run_collisions(a):
+    """commands whose names derive one TypeScript name (get_user / getUser / get__user) in every order and with / without parameters:
+    whatever names the parameter objects end up with, both modes must use the same ones with the same keys"""
+    cli, k = a
+    import itertools
+    variants = [("get_user", []), ("getUser", [("id", "i32")]), ("get__user", [("w", "Named"), ("note", "Option<String>")]), ("get_user_", [("ch", "Channel<Named>")])]
+    perm = list(itertools.permutations(range(4)))[k % 24]
+    chosen = [variants[i] for i in perm[: 2 + k % 3]]
+    src = rg.PRELUDE + "use tauri::ipc::Channel;\n\n" + rg.struct_src("Named", [("a", "i32")]) + "".join(
+        rg.command_src(nm, ps, "Named") for nm, ps in chosen)
+    files = [("lib.rs", src)]
+    r = observe(cli, [], files=files)
+    if "inconclusive" in r or "blocked" in r:
+        return r
+    viol = []
+    pn, pz = r["none"]["pkeys"], r["zod"]["pkeys"]
+    if sorted(pn) != sorted(pz):
+        viol.append(("C10 params-name-sets-differ colliding-command-names", "commands %s: plain mode declares %s, Zod mode %s" % ([c[0] for c in chosen], sorted(pn), sorted(pz))))
+    for n_ in pn:
+        if n_ in pz and pn[n_] != pz[n_]:
+            viol.append(("C10 parameter-object-keys-differ colliding-command-names", "commands %s: %s has keys %s in plain mode and %s in Zod mode" % ([c[0] for c in chosen], n_, pn[n_], pz[n_])))
+    return {"viol": viol, "files": files, "n": len(pn)}
+
+
 def run_graph_names(a):
     """(a) on whole projects: the same type-dependency graph (roots incl. event payloads, channels, nested event-only types) must declare
     the same set of project types and of parameter objects in both modes"""
@@ -311,6 +335,15 @@ def run(tier):
             else:
                 sig = "C10 value-%s %s" % (kind, rg.skeleton(t))
             v.violation(sig, "parameter of Rust type `%s`: the value %s that serde produces is %s by the parameter schema (%s)" % (rg.rust(t), js, kind, why), wit(i))
+    cjobs = [(cli, k) for k in range(72)]
+    for (job, r) in zip(cjobs, common.pmap(run_collisions, cjobs, chunksize=4)):
+        if "inconclusive" in r or "blocked" in r:
+            v.blocked += 1
+            continue
+        v.case(("colliding-command-names", job[1]), nontrivial=True)
+        v.count("colliding_name_projects_compared")
+        for (sig, what) in r["viol"]:
+            v.violation(sig, what, proj.witness_of(r["files"], "both"))
     gjobs = [(cli, i, common.seed() * 100003 + i) for i in range(200 if tier == "quick" else 3000)]
     for (job, r) in zip(gjobs, common.pmap(run_graph_names, gjobs, chunksize=4)):
         if "blocked" in r:
